@@ -10,6 +10,7 @@ from ..core.astutil import (u, dotted, walk_local, calls_in, call_name, kwarg, m
                             assigned_targets, body_nodoc)
 from ..core.loader import AnchorError, Undecided
 from ..core.report import Ctx
+from .c36 import Normalizer  # refactoring-tolerant normalisation (helper inlining, alias/constant propagation, idioms)
 
 BC = "src/porepy/params/bc.py"
 FLAGS = ("is_dir", "is_neu", "is_rob")
@@ -47,9 +48,9 @@ def _params(fn) -> list[str]:
     return [x.arg for x in a.posonlyargs + a.args + a.kwonlyargs]
 
 
-def _kw_of_test(t: ast.expr) -> str | None:
-    """`s.lower() == "dir"` / `s == "dir"` / `"dir" == s.lower()` -> 'dir'."""
-    if isinstance(t, ast.Compare) and len(t.ops) == 1 and isinstance(t.ops[0], ast.Eq):
+def _kw_of_test(t: ast.expr, op=ast.Eq) -> str | None:
+    """`s.lower() == "dir"` / `s == "dir"` / `"dir" == s.lower()` -> 'dir' (op=ast.NotEq for `!=`)."""
+    if isinstance(t, ast.Compare) and len(t.ops) == 1 and isinstance(t.ops[0], op):
         for a, b in ((t.left, t.comparators[0]), (t.comparators[0], t.left)):
             if isinstance(b, ast.Constant) and isinstance(b.value, str):
                 if isinstance(a, ast.Name) or (isinstance(a, ast.Call) and isinstance(a.func, ast.Attribute)
@@ -58,25 +59,70 @@ def _kw_of_test(t: ast.expr) -> str | None:
     return None
 
 
+def _is_kw_if(n: ast.AST) -> bool:
+    return isinstance(n, ast.If) and (_kw_of_test(n.test) is not None or _kw_of_test(n.test, ast.NotEq) is not None)
+
+
+def _ends_flow(body: list[ast.stmt]) -> bool:
+    return bool(body) and isinstance(body[-1], (ast.Continue, ast.Return, ast.Raise))
+
+
 def _chain(fn: ast.FunctionDef):
-    """The if/elif chain over the condition keyword: -> (root If, [(kw, body)], else body)."""
-    roots = []
-    inner = set()
-    for n in walk_local(fn):
-        if isinstance(n, ast.If) and _kw_of_test(n.test) is not None:
-            if len(n.orelse) == 1 and isinstance(n.orelse[0], ast.If) and _kw_of_test(n.orelse[0].test) is not None:
-                inner.add(n.orelse[0])
-            roots.append(n)
-    roots = [r for r in roots if r not in inner]
-    if len(roots) != 1:
-        raise Undecided(f"expected one keyword if/elif chain, found {len(roots)}")
-    arms, cur = [], roots[0]
-    while True:
-        arms.append((_kw_of_test(cur.test), cur.body))
-        if len(cur.orelse) == 1 and isinstance(cur.orelse[0], ast.If) and _kw_of_test(cur.orelse[0].test) is not None:
-            cur = cur.orelse[0]
+    """The dispatch over the condition keyword: -> (anchor node, [(kw, body)], else body).  Understands an
+    if/elif/else chain, a run of sibling `if kw == ...: ...; continue` statements followed by the fallback, and
+    a final `elif kw != "x": <fallback>` (the arm for "x" is then empty)."""
+    from ..core.astutil import parent_map
+    pm = parent_map(fn)
+    kwifs = [n for n in walk_local(fn) if _is_kw_if(n)]
+    inner = {n.orelse[0] for n in kwifs if len(n.orelse) == 1 and _is_kw_if(n.orelse[0])}
+    roots = [n for n in kwifs if n not in inner]
+    if not roots:
+        raise Undecided("no dispatch over the condition keyword found")
+    blk = None
+    for r in roots:
+        par = pm[r]
+        b = next((getattr(par, f) for f in ("body", "orelse", "finalbody") if isinstance(getattr(par, f, None), list)
+                  and any(x is r for x in getattr(par, f))), None)
+        if b is None or (blk is not None and b is not blk):
+            raise Undecided(f"keyword tests are spread over {len(roots)} unrelated places")
+        blk = b
+    pos = {id(x): i for i, x in enumerate(blk)}
+    roots.sort(key=lambda r: pos[id(r)])
+    arms: list[tuple[str, list[ast.stmt]]] = []
+    else_body: list[ast.stmt] = []
+    for idx, r in enumerate(roots):
+        last = idx == len(roots) - 1
+        own: list[list[ast.stmt]] = []
+        cur = r
+        fallback = rest = None
+        while True:
+            kw = _kw_of_test(cur.test)
+            if kw is not None:
+                arms.append((kw, cur.body))
+                own.append(cur.body)
+                rest = cur.orelse
+                if len(rest) == 1 and _is_kw_if(rest[0]):
+                    cur = rest[0]
+                    continue
+            else:  # `kw != "x"`: the body is the fallback, the (plain) orelse is the arm of "x"
+                if any(_is_kw_if(x) for x in cur.orelse):
+                    raise Undecided("keyword chain continues under a `!=` test")
+                arms.append((_kw_of_test(cur.test, ast.NotEq), cur.orelse))
+                fallback, rest = cur.body, None
+            break
+        if not last:
+            if fallback is not None or rest or not all(_ends_flow(b) for b in own):
+                raise Undecided("sibling keyword tests whose arms fall through to the next test")
+            continue
+        if fallback is not None:
+            else_body = fallback
+        elif rest:
+            else_body = rest
         else:
-            return roots[0], arms, cur.orelse
+            tail = blk[pos[id(r)] + 1:]
+            if tail and all(_ends_flow(b) for b in own):
+                else_body = tail
+    return roots[0], arms, else_body
 
 
 def _flag_store(s: ast.stmt):
@@ -118,6 +164,19 @@ def _subset_test(test: ast.expr):
     t = test
     if isinstance(t, ast.UnaryOp) and isinstance(t.op, ast.Not):
         neg, t = True, t.operand
+    # np.setdiff1d(F, B).size [> 0 | != 0] / len(np.setdiff1d(F, B)) [> 0]: true iff some element of F is not in B
+    core = t
+    if isinstance(core, ast.Compare) and len(core.ops) == 1 and isinstance(core.ops[0], (ast.Gt, ast.NotEq)) \
+            and isinstance(core.comparators[0], ast.Constant) and core.comparators[0].value == 0:
+        core = core.left
+    if isinstance(core, ast.Attribute) and core.attr == "size":
+        core = core.value
+    elif isinstance(core, ast.Call) and isinstance(core.func, ast.Name) and core.func.id == "len" and len(core.args) == 1:
+        core = core.args[0]
+    else:
+        core = None
+    if core is not None and isinstance(core, ast.Call) and call_name(core) == "setdiff1d" and len(core.args) >= 2:
+        return ("other" if neg else "all"), core.args[0], core.args[1]
     if not isinstance(t, ast.Call):
         return None
     red = None
@@ -152,11 +211,14 @@ def _subset_test(test: ast.expr):
 
 def run(ctx: Ctx) -> None:
     mod = ctx.repo.module(BC)
+    norm = Normalizer(mod)
     tables: dict[str, dict[str, set]] = {}
     conv: dict[str, bool] = {}
     for cname, fname in SITES:
         cls = mod.cls(cname)
-        meths = methods(cls)
+        # deep copies with private helpers inlined (one level), aliases / module constants propagated, tuple
+        # assignments split
+        meths = norm.methods(cls, inline=True)
         if "__init__" not in meths or fname not in meths:
             raise AnchorError(f"{BC}:{cname}.{fname} missing")
         init, armfn = meths["__init__"], meths[fname]
@@ -164,10 +226,10 @@ def run(ctx: Ctx) -> None:
         root, arms, else_body = _chain(armfn)
         writes = _r3_arms(ctx, mod, cname, fname, armfn, arms)
         _r4_keywords(ctx, mod, cname, fname, root, arms, else_body)
-        conv[cname] = _r2_subset_check(ctx, mod, cname, fname, armfn, root, bf_attr)
+        conv[cname] = _r2_subset_check(ctx, mod, cname, fname, armfn, arms, bf_attr)
         tables[cname] = writes
     _r5_siblings(ctx, mod, tables, conv)
-    _r6_other_mutators(ctx, mod)
+    _r6_other_mutators(ctx, mod, norm)
     if ctx.tier == "thorough":
         _notes(ctx, mod)
 
@@ -182,21 +244,39 @@ def _r1_defaults(ctx: Ctx, mod, cname, init, armfn, fname) -> str:
     sd = ps[1]
     c = cfgmod.build(init)
     inits: dict[str, ast.stmt] = {}
+    init_val: dict[str, ast.expr] = {}
     default = None
     others = []
     in_arms = set()
     if armfn is init:
-        root, arms, _ = _chain(init)
-        in_arms = {s for s in ast.walk(root) if isinstance(s, ast.stmt)}
+        root, arms, els = _chain(init)
+        in_arms = {s for _, b in arms for x in (b or []) for s in ast.walk(x) if isinstance(s, ast.stmt)}
+        in_arms |= {s for x in els for s in ast.walk(x) if isinstance(s, ast.stmt)}
     for s in stmts_local(init):
         if s in in_arms:
             continue
         if isinstance(s, (ast.Assign, ast.AnnAssign)) and getattr(s, "value", None) is not None:
-            for t in assigned_targets(s):
+            tg = assigned_targets(s)
+            for t in tg:
                 if isinstance(t, ast.Attribute) and u(t.value) == "self" and t.attr in FLAGS:
                     if t.attr in inits:
                         raise Undecided(f"{q}: self.{t.attr} assigned more than once")
                     inits[t.attr] = s
+                    v = s.value
+                    if len(tg) > 1 and isinstance(v, (ast.GeneratorExp, ast.ListComp)):
+                        v = v.elt     # a, b, c = (np.zeros(...) for _ in range(3))
+                    init_val[t.attr] = v
+        if isinstance(s, ast.For) and isinstance(s.target, ast.Name) and isinstance(s.iter, (ast.Tuple, ast.List)) \
+                and all(isinstance(e, ast.Constant) for e in s.iter.elts):
+            for st in s.body:   # for name in ("is_neu", ...): setattr(self, name, np.zeros(...))
+                if isinstance(st, ast.Expr) and isinstance(st.value, ast.Call) and u(st.value.func) == "setattr" and len(st.value.args) == 3 \
+                        and u(st.value.args[0]) == "self" and u(st.value.args[1]) == s.target.id:
+                    for e in s.iter.elts:
+                        if e.value in FLAGS:
+                            if e.value in inits:
+                                raise Undecided(f"{q}: self.{e.value} assigned more than once")
+                            inits[e.value] = s
+                            init_val[e.value] = st.value.args[2]
         fs = _flag_store(s)
         if fs is not None:
             if fs[0] == "is_neu" and fs[1] is True and default is None:
@@ -210,7 +290,7 @@ def _r1_defaults(ctx: Ctx, mod, cname, init, armfn, fname) -> str:
         if s is None:
             ctx.check("R1", False, mod, q, init, f"self.{fl} is not initialised in __init__", construct=f"init {fl} <- missing")
             continue
-        v = s.value
+        v = init_val[fl]
         if not (isinstance(v, ast.Call) and call_name(v) in ("zeros", "ones", "full", "zeros_like", "ones_like", "empty")):
             raise Undecided(f"{q}: initialisation of self.{fl} not recognised: {u(v)}")
         dt = kwarg(v, "dtype") or (v.args[1] if call_name(v) in ("zeros", "ones", "empty") and len(v.args) > 1 else None)
@@ -226,18 +306,27 @@ def _r1_defaults(ctx: Ctx, mod, cname, init, armfn, fname) -> str:
     ds, didx = default
     fidx = _face_index(didx)
     # attribute of self holding the boundary faces of the grid
+    from ..core.astutil import inline_locals
+
+    def grid_call(e: ast.expr):
+        e = inline_locals(init, e, stop=ps)
+        if isinstance(e, ast.Call) and isinstance(e.func, ast.Attribute) and u(e.func.value) == sd and "boundary_faces" in e.func.attr \
+                and not e.args:
+            return e.func.attr
+        return None
+
     cands = []
     for s in stmts_local(init):
-        if isinstance(s, (ast.Assign, ast.AnnAssign)) and isinstance(getattr(s, "value", None), ast.Call) \
-                and isinstance(s.value.func, ast.Attribute) and u(s.value.func.value) == sd and "boundary_faces" in s.value.func.attr:
+        if isinstance(s, (ast.Assign, ast.AnnAssign)) and getattr(s, "value", None) is not None and grid_call(s.value):
             for t in assigned_targets(s):
                 if isinstance(t, ast.Attribute) and u(t.value) == "self":
-                    cands.append((t.attr, s.value.func.attr))
+                    cands.append((t.attr, grid_call(s.value)))
     if len(cands) != 1:
         raise Undecided(f"{q}: expected one attribute holding {sd}.<...boundary_faces>(), found {cands}")
     bf_attr, src = cands[0]
-    on_bf = u(fidx) == f"self.{bf_attr}"
-    if not on_bf and not (isinstance(fidx, ast.Slice) or isinstance(fidx, (ast.Name, ast.Attribute, ast.Call))):
+    # the default's index: self.<bf>, or a local / direct call that is the very value stored in self.<bf>
+    on_bf = u(fidx) == f"self.{bf_attr}" or (not isinstance(fidx, ast.Slice) and grid_call(fidx) == src)
+    if not on_bf and not (isinstance(fidx, ast.Slice) or isinstance(fidx, (ast.Attribute, ast.Call))):
         raise Undecided(f"{q}: index of the Neumann default `{u(ds)}` not recognised")
     ctx.check("R1", on_bf, mod, q, ds,
               f"default `{u(ds)}` must mark exactly the boundary faces self.{bf_attr} Neumann (interior faces carry no type, every "
@@ -299,7 +388,7 @@ def _r3_arms(ctx: Ctx, mod, cname, fname, armfn, arms) -> dict[str, set]:
                 raise Undecided(f"{q}: '{kw}' arm writes self.{fl} twice with different values")
             writes[fl] = (val, u(idx), s)
         table[kw] = {(fl, v[0]) for fl, v in writes.items()}
-        node = body[0]
+        node = body[0] if body else armfn
         if kw not in KW2FLAG:
             continue  # reported by R4
         if not writes:
@@ -347,46 +436,104 @@ def _r4_keywords(ctx: Ctx, mod, cname, fname, root, arms, else_body) -> None:
 
 # ---------------- R2 ---------------------------------------------------------------------------
 
-def _r2_subset_check(ctx: Ctx, mod, cname, fname, armfn, root, bf_attr) -> bool:
+def _name_classes(fn: ast.FunctionDef) -> dict[str, set[str]]:
+    """Names connected by plain `a = b` assignments (flow-insensitive; used to follow a helper's parameter/return)."""
+    parent: dict[str, str] = {}
+
+    def find(x: str) -> str:
+        parent.setdefault(x, x)
+        while parent[x] != x:
+            parent[x] = parent[parent[x]]
+            x = parent[x]
+        return x
+
+    for s in stmts_local(fn):
+        if isinstance(s, ast.Assign) and len(s.targets) == 1 and isinstance(s.targets[0], ast.Name) and isinstance(s.value, ast.Name):
+            parent[find(s.targets[0].id)] = find(s.value.id)
+    out: dict[str, set[str]] = {}
+    for x in list(parent):
+        out.setdefault(find(x), set()).add(x)
+    return {x: out[find(x)] for x in parent}
+
+
+def _derives(fn: ast.FunctionDef, e: ast.expr, params: set[str], depth: int = 0) -> set[str]:
+    """Parameters an expression derives from, through single-assignment locals and loop variables."""
+    out: set[str] = set()
+    if depth > 5:
+        return out
+    for nm in names_in(e):
+        if nm in params:
+            out.add(nm)
+            continue
+        srcs: list[ast.expr] = []
+        for s in stmts_local(fn):
+            if isinstance(s, (ast.Assign, ast.AnnAssign)) and getattr(s, "value", None) is not None \
+                    and any(isinstance(t, ast.Name) and t.id == nm for t in assigned_targets(s)):
+                srcs.append(s.value)
+            if isinstance(s, ast.For) and any(isinstance(t, ast.Name) and t.id == nm for t in assigned_targets(s)):
+                it = s.iter
+                # position-wise for zip(a, b) / enumerate(a)
+                if isinstance(it, ast.Call) and call_name(it) == "zip" and isinstance(s.target, ast.Tuple) and len(s.target.elts) == len(it.args):
+                    it = next((a for t, a in zip(s.target.elts, it.args) if nm in names_in(t)), it)
+                elif isinstance(it, ast.Call) and call_name(it) == "enumerate" and isinstance(s.target, ast.Tuple) and len(s.target.elts) == 2 \
+                        and it.args:
+                    it = it.args[0] if nm in names_in(s.target.elts[1]) else ast.Constant(value=0)
+                srcs.append(it)
+        for x in srcs:
+            if nm not in names_in(x):
+                out |= _derives(fn, x, params, depth + 1)
+    return out
+
+
+def _r2_subset_check(ctx: Ctx, mod, cname, fname, armfn, arms, bf_attr) -> bool:
     q = f"{cname}.{fname}"
     if any(isinstance(n, ast.Try) for n in walk_local(armfn)):
         raise Undecided(f"{q}: try/except around the validation")
     c = cfgmod.build(armfn)
-    writes = [s for s in ast.walk(root) if isinstance(s, ast.stmt) and _flag_store(s) is not None]
+    writes = [s for _, b in arms for x in (b or []) for s in ast.walk(x) if isinstance(s, ast.stmt) and _flag_store(s) is not None]
     if not writes:
         raise AnchorError(f"{q}: no flag writes")
+    classes = _name_classes(armfn)
+    params = set(_params(armfn))
     # the array the writes index with
     fvars: dict[str, int] = {}
+    per_write: dict[int, set[str]] = {}
     for s in writes:
         fs = _flag_store(s)
         if fs[2] is None:
             raise Undecided(f"{q}: flag store of unrecognised shape: {u(s)}")
         fi = _face_index(fs[2])
-        nm = {n for n in names_in(fi) if n in _params(armfn)}
+        nm = _derives(armfn, fi, params) - {"self"}
         if len(nm) > 1:
-            raise Undecided(f"{q}: face index `{u(fi)}` derives from several parameters")
+            raise Undecided(f"{q}: face index `{u(fi)}` derives from several parameters {sorted(nm)}")
+        per_write[id(s)] = nm
         for n in nm:
             fvars[n] = fvars.get(n, 0) + 1
     if len(fvars) != 1:
         raise Undecided(f"{q}: flag writes do not index with one parameter array: {sorted(fvars)}")
     fv = next(iter(fvars))
-    stray = [s for s in writes if fv not in names_in(_face_index(_flag_store(s)[2]))]
+    fclass = classes.get(fv, {fv})
+    stray = [s for s in writes if fv not in per_write[id(s)]]
     ctx.check("R2", not stray, mod, q, stray[0] if stray else armfn,
               f"flag write `{u(stray[0]) if stray else ''}` indexes with something that does not derive from the checked array `{fv}`",
               construct=(u(stray[0]) if stray else f"all flag writes index through `{fv}`"),
               desc=f"all flag writes index through the checked array `{fv}`")
     checks = []
+    unknown = []
     for n in walk_local(armfn):
         if isinstance(n, ast.If):
             st = _subset_test(n.test)
             if st is not None and u(st[2]) == f"self.{bf_attr}":
                 checks.append((n, st))
+            elif st is None and n.body and isinstance(n.body[-1], ast.Raise) and (names_in(n.test) & fclass) and \
+                    any(isinstance(x, ast.Attribute) and x.attr == bf_attr for x in ast.walk(n.test)):
+                unknown.append(n)
     effective = []
     why = f"no test of `{fv}` against self.{bf_attr} found"
     for iff, (strength, F, B) in checks:
         if strength == "other":
             raise Undecided(f"{q}: polarity of `{u(iff.test)}` not recognised")
-        if u(F) != fv:
+        if u(F) not in fclass:
             why = f"`{u(iff.test)}` tests `{u(F)}`, the writes index with `{fv}`"
             continue
         if strength == "weak":
@@ -396,6 +543,8 @@ def _r2_subset_check(ctx: Ctx, mod, cname, fname, armfn, root, bf_attr) -> bool:
             why = f"`{u(iff.test)}` does not raise (body: {u(iff.body[-1])[:50]})"
             continue
         effective.append(iff)
+    if not effective and unknown:
+        raise Undecided(f"{q}: raising test `{u(unknown[0].test)}` relates `{fv}` to self.{bf_attr} in a form that is not recognised")
     ctx.check("R2", bool(effective), mod, q, checks[0][0] if checks else armfn,
               f"faces must be checked to be a subset of the boundary faces with a raising test before any flag is written: {why}",
               construct="subset check: " + (u(effective[0].test) if effective else why),
@@ -407,19 +556,20 @@ def _r2_subset_check(ctx: Ctx, mod, cname, fname, armfn, root, bf_attr) -> bool:
                (" (the check runs after the write or on another path)" if effective else f" ({why})"))
         ctx.check("R2", bool(dom), mod, q, s, msg + ": a face outside the boundary gets a condition type",
                   construct=f"check dominates {u(s)}", desc=f"subset check dominates `{u(s)}`")
-    # the checked array is not re-bound after the check
-    rebinds = [s for s in stmts_local(armfn) if any(isinstance(t, ast.Name) and t.id == fv for t in assigned_targets(s))]
+    # the checked array is not re-bound after the check (handing the same object on under another name is fine)
+    rebinds = [s for s in stmts_local(armfn) if any(isinstance(t, ast.Name) and t.id in fclass for t in assigned_targets(s))]
+    real = [s for s in rebinds if not (isinstance(s, ast.Assign) and isinstance(s.value, ast.Name) and s.value.id in fclass)]
     bad = []
     for e in effective:
         en = c.node_for(e)
-        bad += [s for s in rebinds if c.reachable(en, c.node_for(s))]
+        bad += [s for s in real if c.reachable(en, c.node_for(s))]
     ctx.check("R2", not bad, mod, q, bad[0] if bad else armfn,
               f"`{fv}` is re-bound after it was checked against the boundary: the checked and the written faces differ",
               construct=(u(bad[0]) if bad else f"`{fv}` not re-bound after the check"),
               desc=f"`{fv}` is not re-bound between the subset check and the flag writes")
     # mask -> index conversion guarded by dtype == bool (sibling fact for R5)
     conv = any(isinstance(s, ast.Assign) and isinstance(s.value, ast.Call) and call_name(s.value) in ("argwhere", "flatnonzero", "nonzero", "where")
-               and any(isinstance(t, ast.Name) and t.id == fv for t in s.targets) for s in rebinds)
+               for s in real)
     return conv
 
 
@@ -449,15 +599,19 @@ def _r5_siblings(ctx: Ctx, mod, tables, conv) -> None:
 
 # ---------------- notes ---------------------------------------------------------------------------
 
-def _r6_other_mutators(ctx: Ctx, mod) -> None:
+def _r6_other_mutators(ctx: Ctx, mod, norm) -> None:
     """R6 (added by the coordinator): every other method of the boundary-condition classes that switches a
     flag on for an index set must switch the other two off for the same index expression (one-hot is an
     invariant of the object, not only of the constructor).  Today: internal_to_dirichlet."""
     n = 0
+    site_fns = {f for _, f in SITES}
     for cq, cls in mod.classes():
-        for name, fn in methods(cls).items():
+        for name, fn in norm.methods(cls, inline=False).items():
             if (cq, name) in SITES or name == "__init__":
                 continue
+            if name.startswith("_") and any(isinstance(c.func, ast.Attribute) and c.func.attr == name
+                                            for c2, f2 in SITES for c in calls_in(methods(mod.cls(c2)).get(f2) or ast.Pass())):
+                continue  # a private helper of an anchored constructor: analysed inlined there
             ws = [(_flag_store(s), s) for s in stmts_local(fn)]
             ws = [(w, s) for w, s in ws if w is not None]
             for w, st in ws:
